@@ -1,6 +1,7 @@
 import Proofs.Render.Schedule
 import Proofs.Render.Compose
 import Proofs.Render.NoLeak
+import Proofs.Render.Tcp
 /-!
 # C09 — every request gets exactly one final response reflecting the handler outcome
 
@@ -510,6 +511,43 @@ theorem C09_compose_only_requests (s : State) (remote : Remote) (mcLocal : Bool)
           all_goals simp [sendBare, sendInitially] at h
         · simp at h
 
+-- composition with the TCP token interface ---------------------------------------------------
+
+/-- **C09 (composition: the final response over CoAP-over-TCP).**  `Eff.send m true` of a request
+with token `token` behind a TCP (TLS) server is `_TCPPooling.send_message` of that message
+(`tcpSend`, the function the driver runs in `tcp` mode).  For every response code, every token a
+request can carry (up to 8 bytes) and every payload (below 4 GiB):
+* when the No-Response value the response carries has the bit of the response's class set,
+  **nothing** is written to the connection;
+* otherwise `transport.write` is called **exactly once**, with **one** complete RFC 8323 frame
+  (`Tcp.Rfc8323.Message`: Len nibble / extended length by the 13 / 269 / 65805 rule for the length of
+  the payload marker plus payload, TKL, code, token, payload) of the message that carries the
+  request's token, the response's code, the response's payload and no option — whatever the
+  length, there is no length at which the handler's outcome is replaced by anything else. -/
+theorem C09_compose_tcp_final (token : Bytes) (m : Resp)
+    (hcode : 64 ≤ m.code ∧ m.code < 192) (htok : token.length ≤ 8)
+    (hlen : m.payload.length < 4294967296) :
+    (((m.noResponse.getD 0).testBit (m.code / 32 - 1) = true → tcpSend token m = []) ∧
+     ((m.noResponse.getD 0).testBit (m.code / 32 - 1) = false →
+        ∃ b, tcpSend token m = [.write b] ∧
+          Tcp.Rfc8323.Message b { code := m.code, token, opts := [], payload := m.payload })) :=
+  tcpSend_final token m hcode htok hlen
+
+/-- … and what a schedule sends meets the hypotheses on the code (`C09_sends_are_responses`) and
+carries the token of its request (`C09_token`): every final response of every schedule leaves as
+at most one frame. -/
+theorem C09_compose_tcp_run (site : Option Site) (ins : List In) :
+    ∀ o ∈ (run (Sys.init site) ins).2, ∀ m l, o.eff = .send m l →
+      o.token.length ≤ 8 → m.payload.length < 4294967296 →
+      tcpSend o.token m = [] ∨ ∃ b, tcpSend o.token m = [.write b] ∧
+        Tcp.Rfc8323.Message b { code := m.code, token := o.token, opts := [], payload := m.payload } := by
+  intro o ho m l h htok hlen
+  have hc := C09_sends_are_responses site ins o ho m l h
+  have := C09_compose_tcp_final o.token m hc htok hlen
+  cases hb : (m.noResponse.getD 0).testBit (m.code / 32 - 1)
+  · exact Or.inr (this.2 hb)
+  · exact Or.inl (this.1 hb)
+
 -- non-vacuity and sanity examples -------------------------------------------------------------
 
 def exSite : Site :=
@@ -567,5 +605,17 @@ example :
     (MsgLayer.respond s1 0 (toOutMsg ⟨69, [1], some 2⟩ 42 4 none) true).2 = [] ∧
     (MsgLayer.respond s1 0 (toOutMsg ⟨160, [], none⟩ 42 4 none) true).2 =
       [.send 5 3 ⟨.non, 160, 10, [9], none, 42⟩] := by decide
+
+/-- over TCP: a 2.05 with a 12 byte payload — a body of 13 bytes, the first length of the 8 bit
+form — is written as one frame `d1 00 45 <token> ff <payload>`; with No-Response 2 nothing is;
+a bare 5.00 to a request with an empty token is the two bytes `00 a0` -/
+example :
+    tcpSend [1] ⟨69, List.replicate 12 120, none⟩ =
+      [.write ([209, 0, 69, 1, 255] ++ List.replicate 12 120)] ∧
+    tcpSend [] ⟨160, [], none⟩ = [.write [0, 160]] := by decide
+
+example : tcpSend [1] ⟨69, List.replicate 12 120, some 2⟩ = [] :=
+  (C09_compose_tcp_final [1] ⟨69, List.replicate 12 120, some 2⟩ (by decide) (by decide)
+    (by decide)).1 (by decide)
 
 end Aiocoap.Render
